@@ -139,6 +139,8 @@ def classify(ctx: Ctx, spec: dict):
     for f in ctx.failures:
         if f["clause"] not in clauses or f.get("tainted"):
             continue
+        if f["clause"] == "export-error" and "export_error_backends" in spec and f["backend"] not in spec["export_error_backends"]:
+            continue
         if "backends" in spec and f["backend"] not in spec["backends"] and f["backend"] != "both" \
                 and f["clause"] != "polars-subquery":
             continue
